@@ -27,6 +27,7 @@ type c05Case struct {
 	Refuse    string  `json:"refuse"` // "", nomail, norcpt, badlast, threeargs, overlimit
 	LineLimit int     `json:"line_limit"`
 	Noop      bool    `json:"noop"`    // NOOP marker after every chunk
+	Huge      string  `json:"huge"`    // declared size of a BDAT whose octets can never all arrive (decimal string)
 	NoLast    string  `json:"no_last"` // "", QUIT, disconnect: no chunk carries LAST; the transfer is ended this way
 }
 
@@ -150,6 +151,17 @@ func c05Run(ctx *core.Ctx) {
 				}
 			}
 		}
+		// declared sizes that can never be satisfied (and that overflow naive integer handling)
+		for _, hs := range []string{"2147483648", "4294967295", "4294967296", "9223372036854775807", "9223372036854775808", "18446744073709551516", "18446744073709551615", "18446744073709551616", "99999999999999999999999"} {
+			for _, last := range []bool{true, false} {
+				for _, mode := range modes {
+					for _, lim := range []int{0, 64} {
+						idx++
+						emit(c05Case{Msg: []byte("RCPT TO:<bait-2@x.test>\r\nMAIL FROM:<bait-1@x.test>\r\n"), MsgQ: "bait", Chunks: []int{0}, Seg: []string{"glued", "split"}[idx%2], Mode: mode, Huge: hs, ExtraLast: last, LineLimit: lim})
+					}
+				}
+			}
+		}
 		// refused BDATs with bait payloads
 		for _, refuse := range []string{"nomail", "norcpt", "badlast", "threeargs", "overlimit"} {
 			for _, mode := range modes {
@@ -185,6 +197,10 @@ func c05Run(ctx *core.Ctx) {
 }
 
 func c05Exec(ctx *core.Ctx, c c05Case) {
+	if c.Huge != "" {
+		c05Huge(ctx, c)
+		return
+	}
 	sum := 0
 	for _, n := range c.Chunks {
 		sum += n
@@ -528,5 +544,86 @@ func c05Exec(ctx *core.Ctx, c c05Case) {
 	cls := fmt.Sprintf("%s/%s/%s", c.Mode, c.Seg, c.Refuse)
 	if ctx.WantSample(cls) {
 		ctx.Sample(cls, map[string]any{"msg": fmt.Sprintf("%.60q", c.Msg), "chunks": c.Chunks, "extra_last": c.ExtraLast, "seg": c.Seg, "refuse": c.Refuse, "replies": codes(tail), "data_calls": len(des)})
+	}
+}
+
+// c05Huge: a BDAT whose declared size can never be satisfied. Whatever the server makes of the
+// number, it must not acknowledge the chunk, must not report the message complete and must
+// not execute the octets that follow as commands.
+func c05Huge(ctx *core.Ctx, c c05Case) {
+	ctx.Eval(fmt.Sprintf("huge|%s|%v|%s|%s|%d", c.Huge, c.ExtraLast, c.Seg, c.Mode, c.LineLimit), true)
+	rig := newRig(c.Mode, func(s *smtp.Server) {
+		if c.LineLimit > 0 {
+			s.MaxMessageBytes = 1000
+		}
+	})
+	rig.BE.H.Data = func(sess int, r *rec.Reader, st smtp.StatusCollector) error {
+		err := r.ReadAll(300)
+		if err != nil && err.Error() == "EOF" {
+			return nil
+		}
+		return err
+	}
+	p := rig.Dial()
+	p.SendStr(c.Mode.hello() + "\r\nMAIL FROM:<s@x.test>\r\nRCPT TO:<r1@x.test>\r\n")
+	head, err := expect(p, 4)
+	if err != nil {
+		p.Close()
+		rig.Finish()
+		ctx.Inconclusive("C05 huge preamble")
+		return
+	}
+	cmd := "BDAT " + c.Huge
+	if c.ExtraLast {
+		cmd += " LAST"
+	}
+	if c.Seg == "glued" {
+		p.Send(append([]byte(cmd+"\r\n"), c.Msg...))
+	} else {
+		p.SendStr(cmd + "\r\n")
+		p.Send(c.Msg)
+	}
+	p.Raw.CloseWrite()
+	tail, rerr := p.ReadAll()
+	p.Close()
+	fin := rig.Finish()
+	ends := waitDataEnds(rig.Log)
+	if isWatchdog(rerr) || !fin || !ends {
+		ctx.Inconclusive("C05 huge watchdog")
+		return
+	}
+	ev := rig.Log.Events()
+	ctx.Add("backend_events", countBackendEvents(ev))
+	ctx.Add("replies_parsed", int64(len(head)+len(tail)))
+	fail := func(sig, msg string) {
+		ctx.Violate(sig, msg+fmt.Sprintf(" [BDAT %s last=%v seg=%s mode=%s limit=%v]", c.Huge, c.ExtraLast, c.Seg, c.Mode, c.LineLimit > 0), c, witness(rig.Log, append(head, tail...)))
+	}
+	// a size of 2^63 or more cannot be represented by any practical implementation: such a
+	// BDAT counts as "unparsable size" (octet count unknown, nothing can be skipped), so only
+	// the acknowledgement and completeness clauses are judged for it
+	judgeBait := len(c.Huge) < 19 || (len(c.Huge) == 19 && c.Huge <= "9223372036854775807")
+	for _, e := range ev {
+		if judgeBait && e.Ph == "b" && (e.Kind == "Mail" || e.Kind == "Rcpt") && strings.HasPrefix(e.A, "bait") {
+			fail("C05:payload-executed:huge-size", fmt.Sprintf("octets following a BDAT with declared size %s were executed as a command: %s(%q)", c.Huge, e.Kind, e.A))
+			return
+		}
+	}
+	for i, r := range tail {
+		if !judgeBait && i > 0 {
+			break // replies to whatever follows an unparsable size are not judged
+		}
+		if r.Class() == 2 {
+			fail("C05:huge-size-acknowledged", fmt.Sprintf("a BDAT declaring %s octets, of which %d arrived, was answered %s", c.Huge, len(c.Msg), r))
+			return
+		}
+	}
+	for _, d := range dataEnds(ev) {
+		if d.B == "EOF" || d.B == "" {
+			fail("C05:huge-size-complete", fmt.Sprintf("the backend's reader ended with %q after %d octets for a BDAT declaring %s octets", d.B, len(d.A), c.Huge))
+			return
+		}
+	}
+	if ctx.WantSample("huge") {
+		ctx.Sample("huge", map[string]any{"declared": c.Huge, "last": c.ExtraLast, "replies": codes(tail)})
 	}
 }
